@@ -10,9 +10,20 @@
 //!   replaces them statically), callback dispatchers in the threaded flavour.
 //! * `api` exposes the crate-private arithmetic of the runner as plain integers.
 
-/// Address of the concurrent iterator handed to the runner of the computation that
-/// started last (null before the first run).
-pub static mut ITER_PTR: *const u8 = core::ptr::null();
+/// What the hooks record about the computation that started last.
+pub struct RunInfo {
+    /// distinctive constant: keeps this global from being byte-identical to any constant
+    /// (a symbolic-execution engine may back equal-valued constants by one global)
+    pub tag: u64,
+    /// address of the concurrent iterator handed to the runner (null before the first run)
+    pub iter: *const u8,
+}
+
+/// See [`RunInfo`].
+pub static mut RUN: RunInfo = RunInfo {
+    tag: 0x6f72_785f_7061_7221,
+    iter: core::ptr::null(),
+};
 
 pub use crate::core::verif_api as api;
 
@@ -23,12 +34,12 @@ pub use thr::*;
 
 #[cfg(not(orx_parallel_verif_threads))]
 mod seq {
-    use super::ITER_PTR;
+    use super::RUN;
 
     /// Called at the top of `Runner::run`, `Runner::run_map` and `Runner::reduce`.
     #[inline(never)]
     pub fn on_run_begin<I: orx_concurrent_iter::ConcurrentIterX>(iter: &I) {
-        unsafe { ITER_PTR = iter as *const I as *const u8 };
+        unsafe { RUN.iter = iter as *const I as *const u8 };
     }
 
     /// Called when a thread scope is entered.
@@ -111,7 +122,7 @@ mod seq {
 
 #[cfg(orx_parallel_verif_threads)]
 mod thr {
-    use super::ITER_PTR;
+    use super::RUN;
     use std::sync::atomic::{AtomicUsize, Ordering};
 
     /// Runtime callbacks of the threaded flavour; all default to no-ops.
@@ -153,7 +164,7 @@ mod thr {
 
     /// Called at the top of `Runner::run`, `Runner::run_map` and `Runner::reduce`.
     pub fn on_run_begin<I: orx_concurrent_iter::ConcurrentIterX>(iter: &I) {
-        unsafe { ITER_PTR = iter as *const I as *const u8 };
+        unsafe { RUN.iter = iter as *const I as *const u8 };
         SPAWN_INDEX.store(0, Ordering::SeqCst);
         (unsafe { CALLBACKS }.run_begin)(
             iter.try_get_initial_len(),
